@@ -256,4 +256,17 @@ Definition grav_trace1 (G soft : T) (Ks : nat -> nat -> bool) (emap : list nat) 
   let mp := nth_d O emap in
   let acc := star_loop (fun r m0 => (- G) * m0 / (r * r * r)) soft2 mp encN ps acc0 in
   pair_loops (pf_trace1 G Ks) mp None soft2 ps tptype 2 1 encNact encN acc.
+(* reb_integrator_mercurius_L_C4 / L_C5 (changeover functions of Hernandez 2019) *)
+Definition L_C4 (d dcrit : T) : T :=
+  let y := (d - ndec N 1 10 * dcrit) / (ndec N 9 10 * dcrit) in
+  if nltb N y 0 then 0
+  else if nltb N 1 y then 1
+  else (nofZ N 70 * y * y * y * y - nofZ N 315 * y * y * y + nofZ N 540 * y * y - nofZ N 420 * y + nofZ N 126)
+       * y * y * y * y * y.
+Definition L_C5 (d dcrit : T) : T :=
+  let y := (d - ndec N 1 10 * dcrit) / (ndec N 9 10 * dcrit) in
+  if nltb N y 0 then 0
+  else if nltb N 1 y then 1
+  else (nofZ N (-252) * y * y * y * y * y + nofZ N 1386 * y * y * y * y - nofZ N 3080 * y * y * y
+        + nofZ N 3465 * y * y - nofZ N 1980 * y + nofZ N 462) * y * y * y * y * y * y.
 End Grav.
